@@ -4,6 +4,7 @@ import (
 	"bytes"
 	"fmt"
 	"math"
+	"sync"
 
 	"github.com/wi1dcard/fingerproxy/pkg/vhook"
 )
@@ -29,6 +30,11 @@ type HeaderField struct {
 }
 
 type HTTP2FingerprintingFrames struct {
+	// Mutex guards the fields below: the HTTP/2 serve loop updates them on
+	// every relevant frame while request handlers of the same connection
+	// read them in Marshal. Hold it when accessing the fields directly.
+	sync.Mutex
+
 	// Data from SETTINGS frame
 	Settings []Setting
 
@@ -51,6 +57,9 @@ func (f *HTTP2FingerprintingFrames) Marshal(maxPriorityFrames uint) string {
 	var buf bytes.Buffer
 
 	vhook.Point("metadata.Marshal.settings", f)
+	f.Lock()
+	defer f.Unlock()
+
 	// SETTINGS frame
 	for i, s := range f.Settings {
 		if i != 0 {
